@@ -114,7 +114,7 @@ reg(NNOp("linear", {
     "functional": lambda L, t, a: L.sg.linear(t[0], t[1], t[2] if a["bias"] else None),
     "module": _linear_module,
 }, _lin_ops, lambda xs, a: R.linear(xs[0], xs[1], xs[2] if a["bias"] else None),
-    documented=lambda a: len(a["xshape"]) == 2, argclass=lambda a: f"x{len(a['xshape'])}d,bias={a['bias']}" + (",zero-bias" if a.get("zero_bias") else "")))
+    documented=lambda a: len(a["xshape"]) == 2, argclass=lambda a: f"x{len(a['xshape'])}d,bias={a['bias']}" + (",zero-bias" if a.get("zero_bias") else "") + (",many-samples" if a["xshape"][0] > 64 else "")))
 
 
 # ---------------------------------------------------------------------------------------- Flatten layer (reach monitor: no workload constructed it)
@@ -162,6 +162,8 @@ def _geo_class(a):
         parts.append("stride>kernel")
     if any((s or k) >= k and d > 1 and k > 1 for s, k, d in zip(ss * len(ks), ks, ds * len(ks))):
         parts.append("interleaved")
+    if a.get("xshape") and max(a["xshape"][:2]) > 64:
+        parts.append("many-samples-or-channels")
     parts.append("argform=" + ("tuple" if isinstance(a["kernel"], list) else "int"))
     if a.get("zero_bias"):
         parts.append("zero-bias")
@@ -470,6 +472,8 @@ def grid(name, tier, rng):
         out.append({"xshape": [3, 2], "out": 1, "bias": True, "zero_bias": True})
         out.append({"xshape": [3, 2], "out": 2, "bias": True, "zero_bias": True})
         out.append({"xshape": [2, 5], "out": 1, "bias": False, "neuron": True})
+        out.append({"xshape": [130, 3], "out": 2, "bias": True})
+        out.append({"xshape": [257, 2], "out": 130, "bias": True})
     elif name in ("conv1d", "max_pool1d", "avg_pool1d"):
         pool = "pool" in name
         geos = geo1d(7 if not th else 9, pool=pool)
@@ -480,6 +484,12 @@ def grid(name, tier, rng):
             a = {"xshape": [N, C, L], "kernel": k, "stride": s, "padding": p, "dilation": d}
             if not pool:
                 a.update(cout=int(rng.integers(1, 3)), bias=bool(rng.integers(2)))
+            out.append(a)
+        # many samples / channels (block-wise processing: the last, partial block), tiny spatial extent
+        for N_, C_ in ((130, 1), (257, 2), (2, 65)):
+            a = {"xshape": [N_, C_, 4], "kernel": 2, "stride": 1, "padding": 1, "dilation": 1}
+            if not pool:
+                a.update(cout=2, bias=True)
             out.append(a)
         if pool:
             out.append({"xshape": [2, 2, 6], "kernel": 2, "stride": None, "padding": 0, "dilation": 1})
@@ -517,6 +527,12 @@ def grid(name, tier, rng):
             if name == "unfold" and i % 4 == 0:
                 a["pad_value"] = -1.5
             out.append(a)
+        if name != "fold":
+            for N_, C_ in ((130, 1), (200, 2), (2, 65)):
+                a = {"xshape": [N_, C_, 3, 4], "kernel": 2, "stride": 1, "padding": [1, 0], "dilation": 1}
+                if name == "conv2d":
+                    a.update(cout=2, bias=True)
+                out.append(a)
         if pool:
             out.append({"xshape": [1, 2, 6, 4], "kernel": 2, "stride": None, "padding": 0, "dilation": 1})
             out.append({"xshape": [2, 1, 5, 6], "kernel": [2, 3], "stride": None, "padding": [1, 1], "dilation": 1})
